@@ -3,14 +3,14 @@ SRC = ['repo:src/Mutex.cpp', 'repo:src/Semaphore.cpp', 'repo:src/Signal.cpp', 'r
 UNITS = [dict(
     name='sync', harness='harness/c11_sync.cpp', sources=SRC, native=False,
     defines={'quick': {'VF_OPS': 1}, 'thorough': {'VF_OPS': 2}},
-    entries=['mutex', 'semaphore', 'signal_', 'signal_pulse', 'monitor', 'deadlines'],
+    entries=['mutex', 'semaphore', 'signal_', 'signal_pulse', 'monitor', 'thread_restart', 'deadlines'],
     opts={'quick': {'unwind': 64, 'max_instr': 300000, 'preempt': 2, 'timeout_ms': 4000}, 'thorough': {'unwind': 64, 'max_instr': 300000, 'preempt': 3, 'timeout_ms': 4000}},
     split={'quick': 14, 'thorough': 16},
     budget={'quick': 285, 'thorough': 3000},
     validate=[],
 )]
 BOUNDS = {
-    'quick': 'Mutex: 3 threads (two lock/unlock, one of them re-entrantly, one tryLock) + main; Semaphore: initial value 0..1, two waiters (wait / tryWait / timed wait) and one or two signals; Signal: initially set or not, two waiters (untimed / timed), one setter, then reset; Signal pulse: one or two threads blocked in wait(), then set(); reset() at once (all of them must return); Monitor: 0..2 set() calls left pending, one waiter (untimed / timed) and one setter that sets after the waiter took the monitor; every interleaving with <= 2 preemptions at pthread calls and atomic accesses, spurious condition wake-ups and time-outs injected by the scheduler; deadline arithmetic of the three timed waits for every timeout in [0, 2^30) ms (one symbolic value, decided by the solver)',
+    'quick': 'Mutex: 3 threads (two lock/unlock, one of them re-entrantly, one tryLock) + main; Semaphore: initial value 0..1, two waiters (wait / tryWait / timed wait) and one or two signals; Signal: initially set or not, two waiters (untimed / timed), one setter, then reset; Signal pulse: one or two threads blocked in wait(), then set(); reset() at once (all of them must return); Thread: start, refused second start, join result, restart after join; Monitor: 0..2 set() calls left pending, one waiter (untimed / timed) and one setter that sets after the waiter took the monitor; every interleaving with <= 2 preemptions at pthread calls and atomic accesses, spurious condition wake-ups and time-outs injected by the scheduler; deadline arithmetic of the three timed waits for every timeout in [0, 2^30) ms (one symbolic value, decided by the solver)',
     'thorough': '2 lock/unlock rounds per thread, <= 3 preemptions',
 }
 OUTSIDE = 'glibc / kernel behaviour (pthreads are a model written from POSIX: mutex with owner and recursion count honouring the attribute type, condition variable with waiter set, semaphore counter, thread create/join), weak memory, more than 4 threads'
